@@ -697,6 +697,14 @@ SCENARIOS = {
     'tan1': [['tan(A)', ['V0']], ['mul(A,A)', ['r0', 'V1']], ['sum(V,None)', ['r1']]],
 }
 
+# programs that write into their own ARGUMENT (through a view of the independent); kept apart from SCENARIOS: NumPy reads
+# x[0] as a scalar copy while a polynomial element is a view, so intermediate registers differ by design (see C13)
+ARG_WRITING = {
+    'indep1': [['mul(A,A)', ['S0', 'S1']], ['setV[0]=S', ['V0', 'r0']], ['mul(A,A)', ['r1', 'V1']], ['sum(V,None)', ['r2']]],
+    'indep2': [['mul(A,A)', ['V0', 'V1']], ['setM[0]=V', ['M0', 'r0']], ['dot(M,V)', ['r1', 'V0']], ['sum(V,None)', ['r2']]],
+    'indep3': [['mul(A,A)', ['V0', 'V1']], ['setV[...]=V', ['V0', 'r0']], ['mul(A,A)', ['r1', 'V1']]],
+}
+
 
 def prog_str(prog):
     return ' ; '.join('%s<-%s' % (tn, ','.join(refs)) for tn, refs in prog)
